@@ -198,7 +198,9 @@ static bool judge(const Rend &r, double x, int prec, const char *t, size_t len, 
         return true;
     }
     // finite: no non-numeric character for any input
-    bool token = !strcasecmp(t, "inf") || !strcasecmp(t, "+inf") || !strcasecmp(t, "-inf") || !strcasecmp(t, "nan");
+    char c0 = (t[0] == '+' || t[0] == '-') ? t[1] : t[0];
+    bool token = (c0 == 'i' || c0 == 'I' || c0 == 'n' || c0 == 'N') &&
+                 (!strcasecmp(t, "inf") || !strcasecmp(t, "+inf") || !strcasecmp(t, "-inf") || !strcasecmp(t, "nan"));
     bool beyond = fabs(xe) >= 0x1p31; // includes overflows_binary32
     if (token)
     {
@@ -303,13 +305,17 @@ static void check_render(const Rend &r, double x, int prec, Tally &ty, bool seco
         mc::violation(mc::fmt("C12.%s.unterminated", r.name), "%s(%a, prec %d): no NUL within 64 bytes", r.name, x, prec);
         return;
     }
-    for (size_t j = len + 1; j < 64; j++)
-        if ((unsigned char)big[j] != 0x55)
-        {
-            mc::violation(mc::fmt("C12.%s.write_beyond_text", r.name), "%s(%a, prec %d) wrote \"%s\" and changed byte %zu after the terminator", r.name, x, prec,
-                          vis(big, len).c_str(), j);
-            return;
-        }
+    static const char fill[64] = {0x55, 0x55, 0x55, 0x55, 0x55, 0x55, 0x55, 0x55, 0x55, 0x55, 0x55, 0x55, 0x55, 0x55, 0x55, 0x55, 0x55, 0x55, 0x55, 0x55, 0x55, 0x55,
+                                  0x55, 0x55, 0x55, 0x55, 0x55, 0x55, 0x55, 0x55, 0x55, 0x55, 0x55, 0x55, 0x55, 0x55, 0x55, 0x55, 0x55, 0x55, 0x55, 0x55, 0x55, 0x55,
+                                  0x55, 0x55, 0x55, 0x55, 0x55, 0x55, 0x55, 0x55, 0x55, 0x55, 0x55, 0x55, 0x55, 0x55, 0x55, 0x55, 0x55, 0x55, 0x55, 0x55};
+    if (memcmp(big + len + 1, fill, 63 - len) != 0)
+        for (size_t j = len + 1; j < 64; j++)
+            if ((unsigned char)big[j] != 0x55)
+            {
+                mc::violation(mc::fmt("C12.%s.write_beyond_text", r.name), "%s(%a, prec %d) wrote \"%s\" and changed byte %zu after the terminator", r.name, x,
+                              prec, vis(big, len).c_str(), j);
+                return;
+            }
     judge(r, x, prec, big, len, ty);
     if (second_pass)
     {
@@ -494,7 +500,7 @@ MC_INIT
     mc::add_check("render_f32_family_all_precisions", [] {
         int c0 = mc::choose(256 * 2);
         uint32_t ef = c0 / 2, sign = c0 % 2;
-        mc::describe("binary32 exponent field %u sign %u: %zu mantissas x precisions -1..12, igris_f32toa + f64toa + ftoa of the same value", ef, sign,
+        mc::describe("binary32 exponent field %u sign %u: %zu mantissas x precisions -1..12, igris_f32toa + debug_printdec_double_prec (+ f64toa, ftoa at 4 precisions)", ef, sign,
                      g_m23.size());
         mc::crash_context("C12.igris_f32toa.memory");
         Tally ty;
@@ -536,7 +542,7 @@ MC_INIT
         }
         int c0 = mc::choose((int)A.size());
         long a = A[c0];
-        mc::describe("x = (%ld + h/2)/10^q, q = 0..10, h = 0,1, float neighbours -2..+2, both signs, precisions -1..12, three renderers", a);
+        mc::describe("x = (%ld + h/2)/10^q, q = 0..10, h = 0,1, float neighbours -2..+2, both signs, precisions -1..12, four renderers", a);
         mc::crash_context("C12.igris_f32toa.memory");
         Tally ty;
         for (int q = 0; q <= 10; q++)
@@ -569,7 +575,7 @@ MC_INIT
     mc::add_check("render_f64_family", [] {
         int c0 = mc::choose((int)g_e64.size());
         uint64_t ef = g_e64[c0];
-        mc::describe("binary64 exponent field %llu: %zu mantissas x both signs x precisions -1..12, igris_f64toa + igris_ftoa", (unsigned long long)ef, g_m52.size());
+        mc::describe("binary64 exponent field %llu: %zu mantissas x both signs x precisions -1..12, igris_f64toa + igris_ftoa + debug_printdec_double_prec", (unsigned long long)ef, g_m52.size());
         mc::crash_context("C12.igris_f64toa.memory");
         Tally ty;
         for (uint64_t m : g_m52)
